@@ -3,6 +3,7 @@ import Driver.C01
 import Driver.C07
 import Driver.C02
 import Driver.C11
+import Driver.C17
 open Driver
 
 /-- dispatch one request line; returns the output lines -/
@@ -17,6 +18,7 @@ def dispatch (line : String) : IO (List String) := do
   | "c02tele" :: args => cmdC02Tele args
   | "c14" :: args => cmdC14 args
   | "c11" :: args => cmdC11 args
+  | "c17" :: args => cmdC17 args
   | _ => return ["error unknown-command"]
 
 partial def loop (hin : IO.FS.Stream) (hout : IO.FS.Stream) : IO Unit := do
